@@ -72,7 +72,8 @@ def build(states, slots, cluster_bits=16, version=3, size=None, window_at=0, tot
     """states: tokens per cluster of the window (standard L2) or, with ext != None, per cluster a dict
          {"kind": "N"|"U"|"C", "sub": [32 x 'u'|'a'|'z']}.
     comp:  per compressed cluster options {index in window: (in_sector_offset, extra_sectors, high)}.
-    snapshots: list of dicts {"states":..., "slots":..., "id":..., "name":..., "extra": bytes, "l1_size": int|None}
+    snapshots: list of dicts {"states":..., "slots":..., "id":..., "name":..., "extra": bytes, "l1_size": int|None,
+         "l1_stale": bool (entries for tables beyond l1_size are left behind the table, as after a resize)}
          sharing this image's data slots (snapshot L1/L2 tables are separate).
     Returns (qcow2 Image, data-file Image | None).
     """
@@ -252,11 +253,13 @@ def build(states, slots, cluster_bits=16, version=3, size=None, window_at=0, tot
                             target.put_pattern(off + k * sub, sub, pattern.SLACK, off + k * sub)
 
     # ---- tables -----------------------------------------------------------------------------------------------------
-    def emit_tables(ents, tables, l1_key, l2_kind, l2_key, l1n):
-        l1 = [0] * l1n
+    def emit_tables(ents, tables, l1_key, l2_kind, l2_key, l1n, stale=False):
+        # stale: the table's cluster keeps entries of an earlier, longer table behind the l1n declared ones
+        l1 = [0] * (max([l1n] + [t + 1 for t in tables]) if stale else l1n)
+        assert len(l1) * 8 <= ((l1n * 8 + cs - 1) // cs) * cs, "stale entries must fit the table's last cluster"
         for t in tables:
             c = plan[(l2_kind, l2_key(t))]
-            if t < l1n:
+            if t < len(l1):
                 l1[t] = (c << cluster_bits) | COPIED
             buf = bytearray(cs)
             for j in range(l2n):
@@ -272,7 +275,7 @@ def build(states, slots, cluster_bits=16, version=3, size=None, window_at=0, tot
                             img.field(f"l2bitmap[{t}][{j}]", (c << cluster_bits) + j * esz + 8, 8, ">", "table")
             img.put(c << cluster_bits, bytes(buf))
         c1 = plan[l1_key]
-        img.put(c1 << cluster_bits, struct.pack(f">{l1n}Q", *l1))
+        img.put(c1 << cluster_bits, struct.pack(f">{len(l1)}Q", *l1))
         if l1_key[0] == "l1":
             for t in range(min(l1n, 4)):
                 img.field(f"l1[{t}]", (c1 << cluster_bits) + 8 * t, 8, ">", "table")
@@ -286,7 +289,8 @@ def build(states, slots, cluster_bits=16, version=3, size=None, window_at=0, tot
         tab = b""
         for si, s in enumerate(snaps):
             sl1n = s.get("l1_size") or l1_size
-            so = emit_tables(snap_ents[si], [t for t in snap_tables[si]], ("sl1", si), "sl2", lambda t, si=si: (si, t), sl1n)
+            so = emit_tables(snap_ents[si], [t for t in snap_tables[si]], ("sl1", si), "sl2", lambda t, si=si: (si, t), sl1n,
+                             stale=bool(s.get("l1_stale")))
             sid = s.get("id", str(si + 1)).encode()
             nm = s.get("name", f"snap{si}").encode()
             extra = s.get("extra", struct.pack(">QQ", 0, size))
